@@ -638,8 +638,20 @@ C05_Epochs(sc, ep) ==
         /\ sc[j].off > ep[i].s => sc[j].ep >= ep[i].e
   /\ \A j \in 1..Len(sc) : sc[j].ep <= LatestEpoch(ep)
 
+\* ... and the history describes the log that is there: no epoch may start beyond
+\* the end of the log (an entry written ahead of a message that never reached the
+\* log, or left behind by an interrupted truncation, tells a follower that asks
+\* for the end of an older epoch to keep offsets the log does not have, and gives
+\* the next message written there to the wrong epoch).  NewLeaderEpoch records
+\* the epoch at the offset of the LAST message, so even an epoch without any
+\* message of its own starts at or below NewestOffset().  One exemption: on a log
+\* without any message the OLDEST entry may sit at the first offset of the log
+\* (retention clamps the oldest epoch to the log start, which is then the log end).
+C05_EpochsBacked(sc, ep, nw) ==
+  \A i \in 1..Len(ep) : ep[i].s <= nw \/ (sc = <<>> /\ i = 1 /\ ep[i].s = nw + 1)
+
 StateOK(sc, nw, rd, ep) ==
-  C05_NoDup(sc) /\ C05_NewestOK(sc, nw) /\ C05_ReadAt(sc, rd) /\ C05_Epochs(sc, ep)
+  C05_NoDup(sc) /\ C05_NewestOK(sc, nw) /\ C05_ReadAt(sc, rd) /\ C05_Epochs(sc, ep) /\ C05_EpochsBacked(sc, ep, nw)
 
 \* what the interrupted operation was removing / adding (pre = scan before,
 \* lastBase = base offset of the last segment, nw = NewestOffset() before)
@@ -647,10 +659,16 @@ StateOK(sc, nw, rd, ep) ==
 \* message-count retention and compaction are judged in detail under C09/C08
 \* (here: anything in front of the last segment), age retention only removes
 \* expired messages, and without any policy nothing is removed
-Justified(r) == cfg.ret > 0 \/ cfg.compact \/ (cfg.age > 0 /\ r.val < cfg.age)
-Removable(op, pre, lastBase) ==
+\* compaction removes a keyed record only in favour of a later COMMITTED record with
+\* the same key (hw = the high watermark the clean works with); records without a
+\* key and the most recent committed record of a key are never "what a clean was removing"
+Superseded(r, pre, hw) ==
+  r.key # "nil" /\ \E q \in RangeOf(pre) : q.key = r.key /\ q.off > r.off /\ q.off <= hw
+Justified(r, pre, hw) ==
+  cfg.ret > 0 \/ (cfg.compact /\ Superseded(r, pre, hw)) \/ (cfg.age > 0 /\ r.val < cfg.age)
+Removable(op, pre, lastBase, hw) ==
   CASE op.a = "Truncate" -> {r \in RangeOf(pre) : r.off >= op.o}
-    [] op.a = "Clean" -> {r \in RangeOf(pre) : r.off < lastBase /\ Justified(r)}
+    [] op.a = "Clean" -> {r \in RangeOf(pre) : r.off < lastBase /\ Justified(r, pre, hw)}
     [] OTHER -> {}
 Addable(op, nw) ==
   IF op.a \in {"Append", "AppendSet"} THEN RangeOf(Stamp(op.recs, nw + 1)) ELSE {}
@@ -660,12 +678,12 @@ Addable(op, nw) ==
 \* every record in front of the last segment (retention can leave nothing but
 \* a freshly rolled empty segment), a truncation removes a suffix and must
 \* leave the end of the log at or below what it removed
-Ghostable(op, pre, lastBase, nw) ==
-  (RangeOf(pre) \ (IF op.a = "Clean" THEN Removable(op, pre, lastBase) ELSE {})) \cup Addable(op, nw)
+Ghostable(op, pre, lastBase, nw, hw) ==
+  (RangeOf(pre) \ (IF op.a = "Clean" THEN Removable(op, pre, lastBase, hw) ELSE {})) \cup Addable(op, nw)
 
 \* completed appends survive, unmodified, at their offsets
-C05_Durable(op, pre, lastBase, sc) ==
-  \A r \in RangeOf(pre) \ Removable(op, pre, lastBase) : r \in RangeOf(sc)
+C05_Durable(op, pre, lastBase, hw, sc) ==
+  \A r \in RangeOf(pre) \ Removable(op, pre, lastBase, hw) : r \in RangeOf(sc)
 \* nothing appears that was never appended there
 C05_NoPhantom(op, pre, nw, sc) ==
   \A r \in RangeOf(sc) : r \in RangeOf(pre) \cup Addable(op, nw)
@@ -684,7 +702,7 @@ P_Op(op, pre, nw, lastBase, hwPre, o2, sc, hwPost) ==
     [] op.a = "Clean" ->
          /\ o2.err = ""
          /\ IsSubSeq(sc, pre) \/ ~Increasing(pre)
-         /\ \A r \in RangeOf(pre) : (r.off >= lastBase \/ ~Justified(r)) => r \in RangeOf(sc)
+         /\ \A r \in RangeOf(pre) : (r.off >= lastBase \/ ~Justified(r, pre, hwPre)) => r \in RangeOf(sc)
     [] op.a = "Reopen" -> o2.err = "" /\ sc = pre /\ hwPost = hwPre
     [] OTHER -> o2.err = "" /\ sc = pre
 =============================================================================
